@@ -104,3 +104,39 @@ Fixpoint exec_count (fuel : nat) (E : env) (m : machine) : result * nat :=
 
 (* nesting depth of sub-VM activations is not observable on `exec`; the budget argument for it
    is the +100 charged by every call (C07_call_costs_100 in Proofs/VMSafety.v) *)
+
+(* ------------------------------------------------------------------ counting twins of the budgeted rounds *)
+(* VM.wod_budget / VM.dc_budget, also returning the number of dice of the rounds that were STARTED
+   (a round of `pool` dice rolls Z.to_nat pool dice) *)
+Fixpoint wod_budget_cnt (n : nat) (c : config) (addLine points threshold : Z) (isGE : bool) (mode : Z)
+         (pool succ ops : Z) (s : pcg) : rounds_res * Z :=
+  match n with
+  | O => (RNoFuel, 0)
+  | S n' =>
+    let '(ops', over) := ops_add c ops pool in
+    if over then (ROver ops' s, 0)
+    else match wod_round pcg_next roll_fuel (Z.to_nat pool) addLine points threshold isGE mode false (0, 0, []) s with
+         | Roll.OutOfFuel => (RNoFuel, Z.max 0 pool)
+         | Roll.Done ((sc, add, _), s1) =>
+           if 0 <? add then
+             let '(r, k) := wod_budget_cnt n' c addLine points threshold isGE mode add (succ + sc) ops' s1 in
+             (r, Z.max 0 pool + k)
+           else (RDone (succ + sc) ops' s1, Z.max 0 pool)
+         end
+  end.
+
+Fixpoint dc_budget_cnt (n : nat) (c : config) (addLine points mode : Z) (pool result ops : Z) (s : pcg) : rounds_res * Z :=
+  match n with
+  | O => (RNoFuel, 0)
+  | S n' =>
+    let '(ops', over) := ops_add c ops pool in
+    if over then (ROver ops' s, 0)
+    else match dc_round pcg_next roll_fuel (Z.to_nat pool) addLine points mode false (0, 0, []) s with
+         | Roll.OutOfFuel => (RNoFuel, Z.max 0 pool)
+         | Roll.Done ((mx, add, _), s1) =>
+           if 0 <? add then
+             let '(r, k) := dc_budget_cnt n' c addLine points mode add (wrap64 (result + mx)) ops' s1 in
+             (r, Z.max 0 pool + k)
+           else (RDone (wrap64 (result + mx)) ops' s1, Z.max 0 pool)
+         end
+  end.
